@@ -153,9 +153,13 @@ func (voteSet *VoteSet) addVote(vote *Vote) (added bool, err error) {
 	valAddr := vote.ValidatorAddress
 	blockKey := vote.BlockID.Key()
 
-	// Ensure that validator index was set
-	if valIndex < 0 || len(valAddr) == 0 {
-		panic("Validator index or address was not set in vote.")
+	// Ensure that validator index and address were set. Votes come from peers:
+	// a missing field is a bad vote, not a programming error.
+	if valIndex < 0 {
+		return false, ErrVoteInvalidValidatorIndex
+	}
+	if len(valAddr) == 0 {
+		return false, ErrVoteInvalidValidatorAddress
 	}
 
 	// Make sure the step matches.
